@@ -115,6 +115,10 @@ type Client struct {
 	// killLock serializes calls to Kill.
 	killLock sync.Mutex
 
+	// startErr is the error of the one attempt to launch the plugin, if it
+	// failed.
+	startErr error
+
 	unixSocketCfg UnixSocketConfig
 
 	grpcMuxerOnce sync.Once
@@ -595,6 +599,12 @@ func (c *Client) Start() (addr net.Addr, err error) {
 		return c.address, nil
 	}
 
+	// The plugin is only ever launched once. If that attempt failed, a later
+	// call must not launch another process.
+	if c.startErr != nil {
+		return nil, c.startErr
+	}
+
 	// If one of cmd or reattach isn't set, then it is an error. We wrap
 	// this in a {} for scoping reasons, and hopeful that the escape
 	// analysis will pop the stack here.
@@ -748,6 +758,11 @@ func (c *Client) Start() (addr net.Addr, err error) {
 	}
 
 	c.runner = runner
+	defer func() {
+		if err != nil {
+			c.startErr = err
+		}
+	}()
 	startCtx, startCtxCancel := context.WithTimeout(context.Background(), c.config.StartTimeout)
 	defer startCtxCancel()
 	err = runner.Start(startCtx)
